@@ -13,6 +13,7 @@ import itertools
 import json
 import os
 import sys
+import threading
 import time
 
 from vlib import bmc, replay, runner
@@ -277,6 +278,95 @@ def write_replay(programs, init, result):
     return path
 
 
+def context_stack_dynamic():
+    """Observed on the real module with two real threads: does thread B see what thread A pushed?"""
+    import einx._src.tracer.graph as g
+
+    marker = object()
+    entered, done = threading.Event(), threading.Event()
+    seen = {}
+
+    def a():
+        with g.depend_on(marker):
+            entered.set()
+            done.wait(10)
+
+    def b():
+        entered.wait(10)
+        seen["b"] = any(x is marker for x in g.get_additional_dependencies())
+        done.set()
+
+    ta, tb = threading.Thread(target=a), threading.Thread(target=b)
+    ta.start(), tb.start()
+    ta.join(20), tb.join(20)
+    return {"shared_between_threads": bool(seen.get("b"))}
+
+
+CTX_REPLAY = r'''#!/venv/bin/python
+"""Replay (C10): two real threads run one first-time einx call each; their push / first read / pop on the
+tracing context stack (tracer.graph.depend_on) are gated to follow the schedule found by z3."""
+import json, sys, threading
+sys.path.insert(0, "/repo")
+import numpy as np
+import einx
+import einx._src.tracer.graph as g
+SCHEDULE = {schedule!r}
+events, count = [], {{0: 0, 1: 0}}
+for t in SCHEDULE:
+    events.append((t, ["push", "read", "pop"][count[t]])); count[t] += 1
+done = [threading.Event() for _ in events]
+tls = threading.local()
+def gate(kind):
+    t = getattr(tls, "tid", None)
+    if t is None or (t, kind) not in events: return None
+    i = events.index((t, kind))
+    if done[i].is_set(): return None
+    for e in done[:i]: e.wait(15)
+    return i
+orig_enter, orig_exit, orig_read = g.DependOn.__enter__, g.DependOn.__exit__, g.get_additional_dependencies
+def enter(self):
+    i = gate("push"); r = orig_enter(self)
+    if i is not None: done[i].set()
+    return r
+def exit_(self, *a):
+    j = gate("read")
+    if j is not None: done[j].set()
+    i = gate("pop"); r = orig_exit(self, *a)
+    if i is not None: done[i].set()
+    return r
+def read():
+    i = gate("read"); r = orig_read()
+    if i is not None: done[i].set()
+    return r
+g.DependOn.__enter__, g.DependOn.__exit__, g.get_additional_dependencies = enter, exit_, read
+x = np.arange(6.0).reshape(2, 3)
+calls = [lambda: einx.sum("a [b] -> a", x), lambda: einx.multiply("a b, b -> b a", x, x[0])]
+expected = [np.sum(x, axis=1).tolist(), (x * x[0]).T.tolist()]
+out = {{}}
+def run(t):
+    tls.tid = t
+    try: out[t] = np.asarray(calls[t]()).tolist()
+    except Exception as e: out[t] = "raised %s: %s" % (type(e).__name__, str(e).splitlines()[0][:120] if str(e) else "")
+    for i, (tt, _) in enumerate(events):
+        if tt == t: done[i].set()
+ths = [threading.Thread(target=run, args=(t,)) for t in (0, 1)]
+[th.start() for th in ths]; [th.join(60) for th in ths]
+print("schedule (thread ids of push/read/pop steps):", SCHEDULE)
+for t in (0, 1): print("thread %d ->" % t, out.get(t), " serial:", expected[t])
+if any(out.get(t) != expected[t] for t in (0, 1)):
+    print("REPRODUCED: under this interleaving a call's outcome differs from every serial order"); sys.exit(1)
+print("NOT-REPRODUCED"); sys.exit(0)
+'''
+
+
+def write_ctx_replay(schedule):
+    os.makedirs(os.path.join(runner.REPLAY_DIR, PROP), exist_ok=True)
+    path = os.path.join(runner.REPLAY_DIR, PROP, "context_stack_" + "".join(map(str, schedule)) + ".py")
+    with open(path, "w") as f:
+        f.write(CTX_REPLAY.format(schedule=list(schedule)))
+    return path
+
+
 def work(item):
     programs, skeleton, timeout_ms = item
     init = ((), frozenset({0, 1}))
@@ -340,6 +430,34 @@ def main():
     tw2, _, _ = bmc.check([[("enter", 1), ("exit", 1)], [("enter", 2), ("exit", 2)]], ((), frozenset({0, 1})), nolock, NBACK, 30000)
     if tw2 != "sat":
         rep.harness_error(f"vacuity twin (all locks removed) came back {tw2!r}, expected sat")
+    # tracing context stack: classification from the AST, validated on the real module, then model checked
+    ctx = bmc.extract_context_stacks()
+    ctx_dyn = context_stack_dynamic()
+    ctx_results = {}
+    if "_dependon.stack" not in ctx:
+        rep.harness_error(f"context-stack extraction found no stack attribute on tracer.graph._dependon: {ctx}")
+    for key, info in ctx.items():
+        per_thread = info["per_thread"]
+        if key == "_dependon.stack" and per_thread == ctx_dyn["shared_between_threads"]:
+            # the real module is the authority for the model (as for the registry semantics above)
+            info["static_classification_overridden_by_observation"] = True
+            per_thread = not ctx_dyn["shared_between_threads"]
+        v, schedule, stats = bmc.context_stack_check(per_thread, timeout_ms)
+        ctx_results[key] = {"per_thread": per_thread, "verdict": v, "schedule": schedule, "solver_s": round(stats["solver_s"], 4)}
+        solver_s += stats["solver_s"]
+        if v == "sat":
+            path = write_ctx_replay(schedule)
+            ok, out = replay.run_script(path, timeout=120)
+            text = f"tracing context stack {key} is one object for all threads ({info}); schedule {schedule}: a thread's trace picks up another thread's entries\n{out[-700:]}"
+            if ok:
+                rep.violation({"kind": "context-stack-shared", "stack": key}, path, text)
+            else:
+                rep.harness_error("context-stack schedule did not reproduce with real threads: " + text[-900:])
+        elif v != "unsat":
+            rep.inconclusive.append({"why": "z3 " + v, "stack": key})
+    tw3, _, _ = bmc.context_stack_check(False, 30000)
+    if tw3 != "sat":
+        rep.harness_error(f"vacuity twin (context stack modelled as shared) came back {tw3!r}, expected sat")
     shared = scan_shared_state()
     known_inventory = {"registry", "_thread_local", "_dependon"}
     uncovered = [s for s in shared if s["name"] not in known_inventory and s["kind"] not in ("threading.local", "threading.Lock", "threading.RLock")]
@@ -356,13 +474,14 @@ def main():
         "solver_time_s": round(solver_s, 3),
         "skeleton_from_ast": {m: {k: v for k, v in skeleton[m].items()} for m in skeleton},
         "model_validation": {"real_vs_model_evaluations": n_val, "disagreements": len(problems)},
-        "vacuity_twins": {"serial_only": tw, "no_locks": tw2},
+        "vacuity_twins": {"serial_only": tw, "no_locks": tw2, "context_stack_shared": tw3},
+        "tracing_context_stacks": {"from_ast": ctx, "observed_on_real_module": ctx_dyn, "model_checked": ctx_results},
         "module_level_mutable_objects": shared,
         "uncovered_shared_state": uncovered,
         "bounds": {"threads": 2 if tier == "quick" else 3, "calls_per_thread": "<= 4", "with_stack_depth": bmc.MAX_DEPTH, "micro_steps": "A=(acquire;read) B=(write;release) per call", "thread_programs": len(progs)},
     }
     rep.assumptions = [
-        "only the BackendRegistry part of the property is decided; functools.cache is assumed atomic per call (CPython), tracing/device/namespace stacks are threading.local (inventory scanned, see module_level_mutable_objects)",
+        "the BackendRegistry and the tracing context stack (tracer.graph.depend_on) are decided; functools.cache is assumed atomic per call (CPython); device/namespace stacks of the torch/array-api adapters are outside (frameworks not installed)",
         "pre-emption inside BackendRegistryState methods is irrelevant because they work on a private copy (validated: no container is shared between copy and original)",
         "acquire/release are merged with the adjacent read/write step (they commute with all steps of other threads that do not touch the lock)",
     ]
